@@ -526,17 +526,17 @@ def c19(tier):
         "states": max(1, distinct.get("states", 0)), "transitions": tot.get("callbacks", 0),
         "traces_validated_against_impl": tot.get("executions", 0), "samples": samples[:5], "exhaustive": exhaustive,
         "levels_completed": levels, "distinct_outcomes": distinct.get("outcomes", 0),
-        "explanation": "deviation-bounded exhaustive exploration of the environment of the real executor (BUILD_EXECUTOR build): six solved plans "
+        "explanation": "deviation-bounded exhaustive exploration of the environment of the real executor (BUILD_EXECUTOR build): ten solved plans "
                        "(two state-variable atoms meeting at a time point; an impulse coinciding with an interval start; a rule creating a "
-                       "predecessor; a disjunction; fractional times 21/4..25/4; an atom with constant times) x units_per_tick in {1, 1/2}. A "
+                       "predecessor; a disjunction; fractional times 21/4..25/4; an atom with constant times; two uses competing for a reusable resource; three atoms chained on a state variable; two atoms on different state variables tied by equalities; an agent with an impulse followed by an interval) x units_per_tick in {1, 1/2} (thorough: also 2). A "
                        "recording executor_listener is the environment: at every starting()/ending() callback the explorer picks from "
                        "{no request, dont_start_yet / dont_end_yet for one notified atom with delay 1 or 2}; before every tick() from {nothing, "
-                       "failure({a}) for one running atom}. Default = no request; ALL executions with at most 2 (thorough 3) non-default answers "
+                       "failure({a}) for one running atom}. Default = no request; ALL executions with at most 3 (thorough 4, then 5 while the deadline allows) non-default answers "
                        "are run to a fixed horizon, each on a fresh solver+executor under the deterministic allocator. Monitors: time advances by "
                        "exactly units_per_tick per tick(); every atom is started at most once and ended at most once, start before end; an atom "
-                       "is never started/ended before its planned time, nor started in the tick() call that was asked to delay it; after every "
+                       "is never started/ended before its planned time, nor started (ended) in the tick() call that was asked to delay it unless the client was notified again after the delay; after every "
                        "tick and failure the adapted plan is well-formed (origin <= start <= end <= horizon, duration = end - start, no overlap on "
-                       "a state variable) and the start (end) of every started (ended) atom is unchanged; at the horizon every active atom "
+                       "a state variable, capacity of a reusable resource respected) and the start (end) of every started (ended) atom is unchanged; at the horizon every active atom "
                        "whose time has come has been started and ended exactly once; execution_exception is a legitimate terminal outcome, "
                        "any other abnormal termination is a violation. states = distinct (outcome, time, started/ended sets with values); "
                        "transitions = listener callbacks delivered; traces = executions.",
@@ -598,8 +598,8 @@ def c18(tier):
     # (c) valid API sequences on the constraint network with assertions on (Debug) and under the sanitizers
     net_parts = [("netmc-C07/dbg", "dbg", "netmc", ["--prop", "C07", "--depth_delta", "-1"]), ("netmc-C08/dbgn", "dbgn", "netmc", ["--prop", "C08", "--depth_delta", "-1"]),
                  ("reify/dbg", "dbg", "reify", []), ("relmc-C11/dbg", "dbg", "relmc", ["--prop", "C11"]), ("relmc-C12/dbg", "dbg", "relmc", ["--prop", "C12"])]
-    if tier == "quick":
-        net_parts = net_parts[:1] + net_parts[3:]
+    if tier == "quick":  # UBSan + assertions over the C07 histories two levels below the value check; the rest in the thorough tier
+        net_parts = [("netmc-C07/dbg", "dbg", "netmc", ["--prop", "C07", "--depth_delta", "-2"])]
     res_net = run_parts(out, net_parts, "quick")
     # only abnormal terminations of those runs belong to this property (their oracles are judged by C07..C13)
     out.findings = [f for f in out.findings if f["key"].startswith("C18") or f.get("engine") == "lexmc"]
@@ -617,7 +617,7 @@ def c18(tier):
                 "of the families of C01-C06, C16, C17 (constraint networks, timelines, rules, objects, expression evaluation) through "
                 "read()+solve() in Debug+ASan+UBSan (thorough: four configurations incl. Release and the evaluation family): no abort, assertion, sanitizer report, "
                 "foreign exception, and an answer within 15 s (confirmed alone with 45 s). (c) valid API sequences: the histories of C07 "
-                "(depth-1), C11, C12 (thorough: C08, C13) in the Debug+sanitizer build. distinct_nontrivial = distinct input texts of part (a) "
+                "(two levels below its own depth; thorough: one level below, plus C08, C11, C12, C13) in the Debug+sanitizer build. distinct_nontrivial = distinct input texts of part (a) "
                 "(all distinct by construction).",
         "samples": res["bytes/rel"]["samples"][:3] + res["prefixes/rel"]["samples"][:3],
         "exhaustive": all(r["exhaustive"] for r in res.values()),
